@@ -28,7 +28,7 @@ theorem rinv_stepRun {σ : St} (t inp : Nat) (I : RInv σ) (M : ModeOK σ)
   case ts h o => exact rinv_run_ts t inp h o I M hpc
   case la1 => exact rinv_run_la1 t inp I hpc
   case la2 => exact rinv_run_la2 t inp I hpc
-  case is1 p => exact rinv_run_is1 t inp p I hpc
+  case is1 => exact rinv_run_is1 t inp I hpc
   case r1 p sg => exact rinv_run_r1 t inp p sg I hpc
   case r2 p sg => exact rinv_run_r2 t inp p sg I hpc
   case r3 p sg => exact rinv_run_r3 t inp p sg I hpc
